@@ -1,16 +1,16 @@
 SPECIFICATION Spec
 CONSTANTS
   MaxPool = 3
-  Strategy = "random"
-  Keys = {"-"}
-  Pools = {1, 2, 3}
+  Strategies = {"hash"}
+  Keys = {"a", "-"}
+  Pools = {3}
   Presets = {0}
   Hi = 2
   Lo = 4
-  VN = 1
-  H = 1
-  VTabs <- NoVTab
-  KTabs <- NoKTab
+  VN = 2
+  H = 3
+  VTabs <- AllVTab
+  KTabs <- AllKTab
   Defects = {}
 INVARIANTS TypeOK AliveInMap
 PROPERTIES NoDrop RoundRobin FanOut Sticky
